@@ -42,6 +42,10 @@ class JMCDecorator:
         self.tokenizer = tokenizer
         self.datapack = datapack
         self.prefix = prefix
+        if arg_token is None:
+            for key in self.arg_type:
+                if key not in self.defaults:
+                    raise JMCMissingValueError(key, self.token, tokenizer)
         if arg_token:
             args_Args = verify_args(
                 self.arg_type, self.call_string, arg_token, tokenizer
